@@ -225,6 +225,37 @@ def run_shard(args):
                     out["violations"].append({"kind": "inactive-snapshot-is-not-identity", "detail": {"event": e}, "witness": wit, "finding": None})
         if len(out["samples"]) < 2:
             out["samples"].append({"file": src[:1500], "log_active": active[:8], "log_plain": plain[:8]})
+    # ---- real sessions: a test passes with inline-snapshot active (no category flags) iff it passes with
+    # --inline-snapshot=disable; same for report / short-report
+    from .. import session
+
+    nreal = {"quick": 1 if args.shard < 4 else 0, "thorough": 6}[tier]
+    for c in range(nreal):
+        rng = random.Random(f"{args.seed}/{PROP}/session/{args.shard}/{c}")
+        sites = [make_site(rng, i) for i in range(rng.randint(8, 14))]
+        for s in sites:
+            s["place"] = "loop" if s["place"] in ("comp", "helper") else s["place"]
+        src, order = program.build(sites, style="assert", tests=len(sites), per_test=1)
+        mode = [[], ["--inline-snapshot=report"], ["--inline-snapshot=short-report"], []][(args.shard + c) % 4]
+        proj = session.Project({"test_a.py": src})
+        try:
+            ra = session.run_session(proj, mode)
+            rd = session.run_session(proj, ["--inline-snapshot=disable"])
+        finally:
+            proj.close()
+        C["real_session_pairs"] = C.get("real_session_pairs", 0) + 1
+        wit = {"files": {"test_a.py": src}, "args": mode}
+        if ra.changed:
+            out["violations"].append({"kind": "file-changed-without-flags(real session)", "detail": {"args": mode, "changed": ra.changed}, "witness": wit, "finding": None})
+        if not ra.outcomes or set(ra.outcomes) != set(rd.outcomes):
+            out["inconclusive"].append(f"real sessions produced different test sets: {len(ra.outcomes)} vs {len(rd.outcomes)}; {ra.stdout[-200:]}")
+            continue
+        for t in ra.outcomes:
+            out["evaluations"] += 1
+            C["real_test_outcomes"] = C.get("real_test_outcomes", 0) + 1
+            out["signatures"].add(f"real-session/{' '.join(mode) or 'default'}/{rd.outcomes[t]}")
+            if (ra.outcomes[t] == "passed") != (rd.outcomes[t] == "passed"):
+                out["violations"].append({"kind": "test-outcome-differs-from-disabled-session", "detail": {"test": t, "active": ra.outcomes[t], "disabled": rd.outcomes[t], "args": mode}, "witness": wit, "finding": None})
     out["signatures"] = sorted(out["signatures"])
     return out
 
